@@ -162,7 +162,7 @@ func checkSemanticValidation(c *Ctx, p *packages.Package) {
 				if !ok || len(as.Lhs) != 1 || len(as.Rhs) != 1 {
 					return true
 				}
-				if sel, ok := as.Lhs[0].(*ast.SelectorExpr); ok && sel.Sel.Name == "errors" {
+				if sel, ok := as.Lhs[0].(*ast.SelectorExpr); ok && isErrField(info, sel) {
 					if call, ok := ast.Unparen(as.Rhs[0]).(*ast.CallExpr); ok {
 						if fo, ok := objOf(info, call.Fun).(*types.Func); ok && (fo.Name() == "Join" || fo.Name() == "Append") {
 							found = true
@@ -175,16 +175,92 @@ func checkSemanticValidation(c *Ctx, p *packages.Package) {
 		})
 		return found
 	}
-	// ToCharRange: low > up
+	// "lower bound exceeds upper bound": a comparison (>, <) between two variables of the function, the greater side taken
+	// from an earlier element of the parsed sequence (r.Get(i)) than the smaller side (r.Get(j), i < j). Names play no part.
+	var curFd *ast.FuncDecl
+	getIndex := func(e ast.Expr) int {
+		// follow an identifier (or *identifier) back to the Get index of the result it was taken from
+		e = ast.Unparen(e)
+		if st, ok := e.(*ast.StarExpr); ok {
+			e = ast.Unparen(st.X)
+		}
+		id, ok := e.(*ast.Ident)
+		if !ok || curFd == nil {
+			return -1
+		}
+		best := -1
+		seen := map[types.Object]bool{}
+		var resolve func(o types.Object, depth int)
+		resolve = func(o types.Object, depth int) {
+			if o == nil || seen[o] || depth > 6 {
+				return
+			}
+			seen[o] = true
+			ast.Inspect(curFd.Body, func(n ast.Node) bool {
+				as, ok := n.(*ast.AssignStmt)
+				if !ok {
+					return true
+				}
+				for i, l := range as.Lhs {
+					lid, ok := l.(*ast.Ident)
+					if !ok {
+						continue
+					}
+					lo := info.Defs[lid]
+					if lo == nil {
+						lo = info.Uses[lid]
+					}
+					if lo != o {
+						continue
+					}
+					var rhs ast.Expr
+					if len(as.Rhs) == len(as.Lhs) {
+						rhs = as.Rhs[i]
+					} else if len(as.Rhs) == 1 {
+						rhs = as.Rhs[0]
+					}
+					if rhs == nil {
+						continue
+					}
+					ast.Inspect(rhs, func(m ast.Node) bool {
+						switch x := m.(type) {
+						case *ast.CallExpr:
+							if sel, ok := x.Fun.(*ast.SelectorExpr); ok && sel.Sel.Name == "Get" && len(x.Args) == 1 {
+								if v, ok := constInt(info, x.Args[0]); ok && int(v) > best {
+									best = int(v)
+								}
+							}
+						case *ast.Ident:
+							if ro := info.Uses[x]; ro != nil && ro != o {
+								if _, isVar := ro.(*types.Var); isVar {
+									resolve(ro, depth+1)
+								}
+							}
+						}
+						return true
+					})
+				}
+				return true
+			})
+		}
+		o := info.Uses[id]
+		if o == nil {
+			o = info.Defs[id]
+		}
+		resolve(o, 0)
+		return best
+	}
 	descending := func(cond ast.Expr) bool {
 		ok := false
 		ast.Inspect(cond, func(n ast.Node) bool {
 			if b, isB := n.(*ast.BinaryExpr); isB && (b.Op == token.GTR || b.Op == token.LSS) {
-				x, y := types.ExprString(b.X), types.ExprString(b.Y)
+				x, y := b.X, b.Y
 				if b.Op == token.LSS {
 					x, y = y, x
 				}
-				if strings.Contains(x, "low") && strings.Contains(y, "up") {
+				// x > y must mean: the earlier element exceeds the later one
+				ix, iy := getIndex(x), getIndex(y)
+				if ix >= 0 && iy >= 0 && ix < iy {
 					ok = true
 				}
 			}
@@ -210,12 +286,14 @@ func checkSemanticValidation(c *Ctx, p *packages.Package) {
 		return
 	}
 	if fd := FuncDecl(p, mappers.Obj().Name(), "ToCharRange"); fd != nil {
+		curFd = fd
 		c.Analysed(funcKey(p, fd))
 		c.Check("R9.2", pk+": a descending character range is recorded as an error", fd.Pos(), records(fd, descending), "no `if low > up { m.errors = errors.Join(...) }`", "[z-a]")
 	} else {
 		c.Lost("R9.2", pk+".ToCharRange")
 	}
 	if fd := FuncDecl(p, mappers.Obj().Name(), "ToRange"); fd != nil {
+		curFd = fd
 		c.Analysed(funcKey(p, fd))
 		withNil := func(cond ast.Expr) bool {
 			s := types.ExprString(cond)
@@ -288,10 +366,10 @@ func checkSemanticValidation(c *Ctx, p *packages.Package) {
 			switch s := n.(type) {
 			case *ast.IfStmt:
 				if b, ok := ast.Unparen(s.Cond).(*ast.BinaryExpr); ok && b.Op == token.NEQ && isNilExpr(info, b.Y) {
-					if sel, ok := ast.Unparen(b.X).(*ast.SelectorExpr); ok && sel.Sel.Name == "errors" {
+					if sel, ok := ast.Unparen(b.X).(*ast.SelectorExpr); ok && isErrField(info, sel) {
 						for _, st := range s.Body.List {
 							if r, ok := st.(*ast.ReturnStmt); ok && len(r.Results) == 2 {
-								if rs, ok := ast.Unparen(r.Results[1]).(*ast.SelectorExpr); ok && rs.Sel.Name == "errors" && isNilExpr(info, r.Results[0]) {
+								if rs, ok := ast.Unparen(r.Results[1]).(*ast.SelectorExpr); ok && isErrField(info, rs) && isNilExpr(info, r.Results[0]) {
 									errIf = s
 								}
 							}
@@ -394,7 +472,7 @@ func checkSiblingMappers(c *Ctx, rule string) {
 	}
 	sort.Strings(names)
 	for _, m := range names {
-		a, b := FuncDecl(np, "mappers", m), FuncDecl(ap, "mappers", m)
+		a, b := FuncDecl(np, mappersTypeName(np), m), FuncDecl(ap, mappersTypeName(ap), m)
 		if a == nil || b == nil {
 			c.Fail(rule, "sibling mappers "+m+" exist in both routes", token.NoPos, "one route lacks the mapper")
 			continue
@@ -497,4 +575,27 @@ func checkEscapeList(c *Ctx, pp *packages.Package) {
 	})
 	c.Check("R9.3", "unescaped characters exclude exactly that list", newFn.Pos(), excl, "unescaped_char is not built with ExcludeRunes(<the list>...)")
 	c.Check("R9.3", "escaped characters are exactly that list after a backslash", newFn.Pos(), incl, "escaped_char is not built with ExpectRuneIn(<the list>...)")
+}
+
+// mappersTypeName: the struct type of the package whose method set has ToRange and ToCharRange.
+func mappersTypeName(p *packages.Package) string {
+	for _, n := range p.Types.Scope().Names() {
+		if tn, ok := p.Types.Scope().Lookup(n).(*types.TypeName); ok {
+			if named, ok := tn.Type().(*types.Named); ok {
+				if _, isStruct := named.Underlying().(*types.Struct); isStruct {
+					ms := types.NewMethodSet(types.NewPointer(named))
+					if ms.Lookup(p.Types, "ToRange") != nil && ms.Lookup(p.Types, "ToCharRange") != nil {
+						return tn.Name()
+					}
+				}
+			}
+		}
+	}
+	return "mappers"
+}
+
+// isErrField: the selector denotes a struct field of type error.
+func isErrField(info *types.Info, sel *ast.SelectorExpr) bool {
+	v, ok := info.Uses[sel.Sel].(*types.Var)
+	return ok && v.IsField() && isErr(v.Type())
 }
